@@ -367,6 +367,105 @@ func verifRaceReady(w *bufio.Writer, tmp string, id string, mib int) {
 	fmt.Fprintf(w, "SR ready %d 0 0 = began=%d full_at_ready=%d state_at_ready=%d\n", mib, b, fullAtReady, stateAtReady)
 }
 
+
+// vrGated delivers nothing until the gate opens (a connection that stalls right after the request
+// was accepted), then its bytes
+type vrGated struct {
+	gate chan bool
+	r    *bytes.Reader
+	open bool
+}
+
+func (g *vrGated) Read(p []byte) (int, error) {
+	if !g.open {
+		<-g.gate
+		g.open = true
+	}
+	return g.r.Read(p)
+}
+
+// kind late: a duplicate of the first part of a file stalls before its first byte (p2 = 1: and carries
+// damaged bytes); meanwhile the file completes on another connection, is validated and put away (or held
+// for a predecessor, p3 = 1); then the stalled connection comes back to life.
+func verifRaceLate(w *bufio.Writer, tmp string, id string, size int, corrupt bool, held bool) {
+	e := vrNew(tmp, id)
+	defer os.RemoveAll(e.root)
+	defer e.st.Stop(true)
+	name, prev := "d/late.bin", ""
+	if held {
+		prev = "d/never.bin"
+	}
+	data := make([]byte, size)
+	for i := range data {
+		data[i] = byte(i*7 + 3)
+	}
+	hash := vrMD5(data)
+	half := int64(size / 2)
+	dup := append([]byte{}, data[:half]...)
+	if corrupt {
+		for i := range dup {
+			dup[i] ^= 0x5a
+		}
+	}
+	gate := make(chan bool)
+	stalled := make(chan error, 1)
+	mk := func(beg, end int64) *sts.Partial {
+		return &sts.Partial{Name: name, Prev: prev, Size: int64(size), Time: marshal.NanoTime{Time: time.Now().Add(-100 * time.Second)}, Hash: hash, Source: "src",
+			Parts: []*sts.ByteRange{{Beg: beg, End: end}}}
+	}
+	e.st.Prepare([]sts.Binned{&vsPart{name: name, prev: prev, hash: hash, size: int64(size), beg: 0, end: half}})
+	go func() { stalled <- e.st.Receive(mk(0, half), &vrGated{gate: gate, r: bytes.NewReader(dup)}) }()
+	time.Sleep(30 * time.Millisecond) // the stalled request is inside Receive, waiting for its body
+	// the same file, complete, on another connection
+	done2 := make(chan bool, 1)
+	go func() {
+		e.st.Receive(mk(0, half), bytes.NewReader(data[:half]))
+		e.st.Receive(mk(half, int64(size)), bytes.NewReader(data[half:]))
+		done2 <- true
+	}()
+	completed := 0
+	select {
+	case <-done2:
+		completed = 1
+	case <-time.After(1500 * time.Millisecond):
+		// (a receiver that makes the completing part wait for the stalled one is fine too)
+	}
+	if completed == 1 {
+		e.quiet()
+	}
+	close(gate) // the stalled connection delivers its bytes now
+	select {
+	case <-stalled:
+	case <-time.After(5 * time.Second):
+	}
+	if completed == 0 {
+		select {
+		case <-done2:
+		case <-time.After(5 * time.Second):
+		}
+	}
+	e.quiet()
+	// what is delivered / held under the name must be the announced content
+	bad := 0
+	where := "-"
+	for _, p := range []string{filepath.Join(e.finalDir, name), filepath.Join(e.stageDir, name+waitExt)} {
+		if b, err := os.ReadFile(p); err == nil {
+			where = filepath.Base(p)
+			if vrMD5(b) != hash {
+				bad = 1
+			}
+		}
+	}
+	status := e.st.GetFileStatus(name, time.Now().Add(-time.Hour))
+	b2i := func(x bool) int {
+		if x {
+			return 1
+		}
+		return 0
+	}
+	fmt.Fprintf(w, "SR late %d %d %d = completed_first=%d where=%s bad_content=%d status=%d\n", size, b2i(corrupt), b2i(held), completed, where, bad, status)
+}
+
 func TestVerifStageRace(t *testing.T) {
 	wr, done, ok := gen.Out()
 	if !ok {
@@ -385,6 +484,9 @@ func TestVerifStageRace(t *testing.T) {
 	}
 	for i := 0; i < gen.EnvInt("VERIF_RACE_READY", 3); i++ {
 		verifRaceReady(wr, tmp, fmt.Sprintf("r%d", i), []int{24, 40, 16}[i%3])
+	}
+	for i := 0; i < gen.EnvInt("VERIF_RACE_LATE", 6); i++ {
+		verifRaceLate(wr, tmp, fmt.Sprintf("l%d", i), 2000+i*4096, i%3 != 2, i%2 == 1)
 	}
 	nstorm := gen.EnvInt("VERIF_RACE_STORM", 40)
 	for i := 0; i < nstorm; i++ {
